@@ -4,7 +4,7 @@ SHELL := /bin/bash
 COQ_TIMEOUT ?= 1800
 J ?= 12
 
-.PHONY: setup all gen coq extract driver clean prectable onlinegen offlinegen offlinegen-check offlinegen-mutants denseonlinegen denseonlinegen-check denseonlinegen-mutants pastifiergen pastifiergen-check pastifiergen-mutants explainergen explainergen-check explainergen-mutants denseofflinegen denseofflinegen-check denseofflinegen-mutants mergegen mergegen-check mergegen-mutants unitsgen unitsgen-check unitsgen-mutants parservisitorgen parservisitorgen-check parservisitorgen-mutants coqchk coqchk-float static
+.PHONY: setup all gen coq extract driver clean prectable onlinegen offlinegen offlinegen-check offlinegen-mutants denseonlinegen denseonlinegen-check denseonlinegen-mutants pastifiergen pastifiergen-check pastifiergen-mutants explainergen explainergen-check explainergen-mutants denseofflinegen denseofflinegen-check denseofflinegen-mutants mergegen mergegen-check mergegen-mutants unitsgen unitsgen-check unitsgen-mutants parservisitorgen parservisitorgen-check parservisitorgen-mutants onlinevisitorgen onlinevisitorgen-check onlinevisitorgen-mutants coqchk coqchk-float static
 
 # `make all` never stops at the first failure: a source file of nickovic/rtamt that a translator refuses, or a proof that no longer
 # checks against the regenerated text, must break the obligations of the properties that depend on it and of no other property.
@@ -18,7 +18,7 @@ all:
 	@($(MAKE) coq > build/status/coq.log 2>&1 && echo ok > build/status/coq) || (tail -40 build/status/coq.log > build/status/coq; true)
 	@($(MAKE) driver > build/status/driver.log 2>&1 && echo ok > build/status/driver) || (tail -40 build/status/driver.log > build/status/driver; true)
 	@grep -v "^COQC\|^COQDEP\|Closed under the global context\|^make" build/status/coq.log | tail -5; true
-	@for f in prectable offlinegen onlinegen denseonlinegen pastifiergen explainergen denseofflinegen mergegen unitsgen parservisitorgen coq driver; do if [ "`head -c 2 build/status/$$f`" != "ok" ]; then echo "make all: step $$f failed (build/status/$$f)"; fail=1; fi; done; test -z "$$fail"
+	@for f in prectable offlinegen onlinegen denseonlinegen pastifiergen explainergen denseofflinegen mergegen unitsgen parservisitorgen onlinevisitorgen coq driver; do if [ "`head -c 2 build/status/$$f`" != "ok" ]; then echo "make all: step $$f failed (build/status/$$f)"; fail=1; fi; done; test -z "$$fail"
 
 coq/Makefile.coq: coq/_CoqProject
 	cd coq && coq_makefile -f _CoqProject -o Makefile.coq
@@ -37,6 +37,7 @@ gen:
 	@($(MAKE) -s mergegen > build/status/mergegen.log 2>&1 && echo ok > build/status/mergegen) || (tail -20 build/status/mergegen.log > build/status/mergegen; true)
 	@($(MAKE) -s unitsgen > build/status/unitsgen.log 2>&1 && echo ok > build/status/unitsgen) || (tail -20 build/status/unitsgen.log > build/status/unitsgen; true)
 	@($(MAKE) -s parservisitorgen > build/status/parservisitorgen.log 2>&1 && echo ok > build/status/parservisitorgen) || (tail -20 build/status/parservisitorgen.log > build/status/parservisitorgen; true)
+	@($(MAKE) -s onlinevisitorgen > build/status/onlinevisitorgen.log 2>&1 && echo ok > build/status/onlinevisitorgen) || (tail -20 build/status/onlinevisitorgen.log > build/status/onlinevisitorgen; true)
 
 # the AST-building methods of the parser visitors (rtamt/syntax/ast/parser/{ltl,stl}/parser_visitor.py: visitExprX, visitInterval, the two
 # intervalTime methods, str_to_op_type) are re-translated on every build (tools/py2coq_parservisitor.py, fail-closed: an unsupported construct,
@@ -133,6 +134,25 @@ denseofflinegen-check: coq
 denseofflinegen-mutants: coq
 	python3 tools/denseofflinegen_mutants.py
 	python3 tools/denseofflinegen_ia_mutants.py
+
+# the three visitors of the discrete-time online interpreter (construction of online_operator_dict, update with the `visited` memo, reset:
+# rtamt/semantics/abstract_online_interpreter.py, abstract_discrete_time_online_interpreter.py, stl/discrete_time/online/ast_visitor.py) are
+# re-translated on every build, after onlinegen (the signatures of the operation classes are read from OnlineGen.v); fail-closed as above:
+# C02 / C09 / C10 / C12 are then reported as no longer shown.  OnlineVisitorGenCorrect.v re-proves against the new text that every node class
+# gets the operation class, update and reset that the hand model OnlineNamed.v assumes, and the same rejections (C02_generated_monitor)
+onlinevisitorgen:
+	@mkdir -p build
+	python3 tools/py2coq_onlinevisitor.py $(REPO) build/OnlineVisitorGen.v.new coq/theories/OnlineGen.v
+	@cmp -s build/OnlineVisitorGen.v.new coq/theories/OnlineVisitorGen.v || cp build/OnlineVisitorGen.v.new coq/theories/OnlineVisitorGen.v
+
+# differential check of the generated visitors against the Python interpreter on random specifications and data (not part of `all`: ~3 min)
+onlinevisitorgen-check: coq
+	PYTHONDONTWRITEBYTECODE=1 PYTHONPATH=$(REPO) /venv/bin/python harness/onlinevisitorgen_check.py --n 3000 build/OnlineVisitorGenCases.v
+	cd coq && timeout 3000 coqc -Q theories RV ../build/OnlineVisitorGenCases.v
+
+# semantic mutations + harmless rewrites of scratch copies of the source files: translator verdict / first lemma that fails
+onlinevisitorgen-mutants: coq
+	python3 tools/onlinevisitorgen_mutants.py
 
 # the pastifiers and the horizon visitors (rtamt/pastifier/{ltl,stl}/*.py) are re-translated on every build (fail-closed, as above: C03 is then
 # reported as no longer shown); PastifyGenCorrect.v re-proves, against the new text, that the generated functions compute the hand model
